@@ -38,7 +38,7 @@ func TestMain(m *testing.M) {
 	if out := os.Getenv("VERIF_EV_OUT"); out != "" {
 		journal, _ = os.Create(out + ".journal")
 	}
-	rec.Rule("for every target (the enumerated list is in coverage.targets) inputs are drawn from three mixes: raw bytes (incl. invalid UTF-8, NULs, long tokens), grammar-derived valid strings, and 1-3 byte/token mutations of valid strings (delete, duplicate, splice, hostile constants); oracle = the call returns (a value or an error): panics are recovered and reported, a call exceeding 10 s is re-run with a 100 s budget before being reported as a hang, a fatal exit is attributed through a last-input journal. One evaluation = one target call. Non-trivial: the call got past validation (returned a non-error value) or the input is a mutation of a valid input. Distinct = distinct (target, input).")
+	rec.Rule("for every target (the enumerated list is in coverage.targets) inputs are drawn from three mixes: raw bytes (incl. invalid UTF-8, NULs, long tokens), grammar-derived valid strings, and 1-3 byte/token mutations of valid strings (delete, duplicate, splice, hostile constants); graph texts vary their first row and include wide well-formed graphs of 12-20 nodes with copies of the root; a dedicated target evaluates one environment marker per universe; oracle = the call returns (a value or an error): panics are recovered and reported, a call exceeding 10 s is re-run with a 100 s budget before being reported as a hang, a fatal exit is attributed through a last-input journal. One evaluation = one target call. Non-trivial: the call got past validation (returned a non-error value) or the input is a mutation of a valid input. Distinct = distinct (target, input).")
 	rec.Extra("targets", targetNames())
 	code := m.Run()
 	rec.Flush()
